@@ -161,7 +161,7 @@ fn shard(seed: u64, shard: u64, shards: u64, tier: Tier) -> Tally {
         // the exhaustive second-grid is run at three server instants in thorough, one in quick; bounds at all
         let full = match tier {
             Tier::Quick => si < 2,
-            Tier::Thorough => si < 3,
+            Tier::Thorough => true,
         };
         for d in -1200i64..=1200 {
             // offsets are dealt round-robin to pairs of shards (one shard per carrier)
